@@ -316,7 +316,10 @@ def run(args):
         fig_traj = plt.figure(figsize=tuple(SETTINGS.plot_figsize))
         fig_speed = None
 
-        plot_mode = plot.PlotMode[args.plot_mode]
+        # The default is looked up here and not when the parser is built, a
+        # config file (-c) may override the setting in between.
+        plot_mode = plot.PlotMode[args.plot_mode
+                                  or SETTINGS.plot_mode_default]
         length_unit = Unit(SETTINGS.plot_trajectory_length_unit)
         ax_traj = plot.prepare_axis(fig_traj, plot_mode,
                                     length_unit=length_unit)
